@@ -10,9 +10,64 @@ import (
 	"sync/atomic"
 	"time"
 
+	"verif/harness/internal/tla"
 	"verif/harness/internal/tlc"
 	"verif/harness/internal/vrun"
 )
+
+// labels counts, over all state graphs of the run, how many states each kind
+// of specification step produces (vacuity audit: a step kind that never occurs
+// means part of the specification is dead).
+var (
+	labelsMu sync.Mutex
+	labels   = map[string]int64{}
+)
+
+func stepLabel(l tla.Value) string {
+	a := l.F("a").Str()
+	switch a {
+	case "io":
+		return "io:" + l.F("op").Str() + ":" + l.F("res").Str()
+	case "int":
+		return "int:" + l.F("what").Str()
+	case "Cur":
+		return "Cur:" + l.F("op").Str()
+	case "CommitEnd":
+		if l.F("err").Bool() {
+			return "CommitEnd:error"
+		}
+		return "CommitEnd:ok"
+	case "CommitStart":
+		if l.F("fl").Bool() {
+			return "CommitStart:flush"
+		}
+		return "CommitStart:noflush"
+	}
+	return a
+}
+
+func recordLabels(g *graph) {
+	m := map[string]int64{}
+	for _, n := range g.nodes {
+		m[stepLabel(n.Last())]++
+	}
+	labelsMu.Lock()
+	for k, v := range m {
+		labels[k] += v
+	}
+	labelsMu.Unlock()
+}
+
+// requiredLabels must all occur in the thorough tier.
+var requiredLabels = []string{
+	"Begin", "Rollback", "Put", "Delete", "CreateBucket", "DeleteBucket", "StoreBlock", "StoreDup", "Prune",
+	"CommitStart:flush", "CommitStart:noflush", "CommitEnd:ok", "CommitEnd:error", "Crash", "Reopen", "Restart",
+	"Cur:Open", "Cur:First", "Cur:Last", "Cur:Next", "Cur:Prev", "Cur:Delete",
+	"io:delete:ok", "io:delete:fail", "io:openwrite:ok", "io:openwrite:fail", "io:write:ok", "io:write:fail", "io:write:partial",
+	"io:truncate:ok", "io:truncate:fail", "io:sync:ok", "io:sync:fail", "io:ldbcommit:ok", "io:ldbcommit:fail",
+	"int:roll", "int:noroll", "int:row", "int:wloc", "int:merge", "int:cache-empty", "int:sync-nofile",
+	"int:rb-nothing", "int:rb-close", "int:rb-same-file", "int:rb-isopen", "int:rb-reset", "int:del-done", "int:blocks-done",
+}
 
 // distinct abstract transitions exercised on the real code (summed over the
 // configurations; the replays run concurrently).
@@ -49,9 +104,9 @@ func workDir(ctx *vrun.Ctx) string {
 }
 
 func tlcWorkers(ctx *vrun.Ctx) int {
-	w := ctx.Workers / 2
-	if w > 6 {
-		w = 6
+	w := ctx.Workers / 4
+	if w > 4 {
+		w = 4
 	}
 	if w < 1 {
 		w = 1
@@ -123,6 +178,7 @@ func modelCheck(ctx *vrun.Ctx, cr cfgRun) (func(work string) error, error) {
 	if int64(len(g.nodes)) != res.Distinct {
 		return nil, fmt.Errorf("%s: graph has %d nodes, TLC reports %d distinct states", cr.cfg, len(g.nodes), res.Distinct)
 	}
+	recordLabels(g)
 	initLast := g.nodes[g.inits[0]].Last()
 	cc, err := newConcrete(readConsts(initLast), ctx.Rand("concrete:"+cr.cfg))
 	if err != nil {
@@ -198,7 +254,7 @@ func (r *runner) replayAll(g *graph, paths [][]int32, covered int, work string) 
 	if drifts > 0 {
 		ctx.AddExtra("model_drift", drifts)
 		ctx.SetExtra("model_drift_samples_"+name, driftSamples)
-		ctx.Logf("%s: WARNING %d paths stopped at a model drift (real behaviour allowed by the property but not predicted by the specification), e.g. %s", r.cfg, drifts, driftSamples[0])
+		ctx.Logf("%s: WARNING %d paths with a model drift (real behaviour allowed by the property but not predicted by the specification), e.g. %s", r.cfg, drifts, driftSamples[0])
 	}
 	ks := make([]string, 0, len(kinds))
 	for k := range kinds {
@@ -311,14 +367,14 @@ func RunC05(ctx *vrun.Ctx) error {
 	var runs []cfgRun
 	if ctx.Thorough {
 		runs = []cfgRun{
-			{cfg: "kv.cfg", graph: true, timeout: 20 * time.Minute, heapGB: 8, coverage: true},
-			{cfg: "blk.cfg", graph: true, timeout: 20 * time.Minute, heapGB: 8, coverage: true},
-			{cfg: "iso.cfg", graph: true, timeout: 20 * time.Minute, heapGB: 8, coverage: true},
-			{cfg: "pow.cfg", graph: true, timeout: 20 * time.Minute, heapGB: 8, coverage: true},
-			{cfg: "cur.cfg", graph: true, timeout: 20 * time.Minute, heapGB: 8, coverage: true},
+			{cfg: "kv.cfg", graph: true, timeout: 20 * time.Minute, heapGB: 8},
+			{cfg: "blk.cfg", graph: true, timeout: 20 * time.Minute, heapGB: 8},
+			{cfg: "iso.cfg", graph: true, timeout: 20 * time.Minute, heapGB: 8},
+			{cfg: "pow.cfg", graph: true, timeout: 20 * time.Minute, heapGB: 8},
+			{cfg: "cur.cfg", graph: true, timeout: 20 * time.Minute, heapGB: 8},
 			{cfg: "curmix.cfg", graph: true, timeout: 20 * time.Minute, heapGB: 8},
-			{cfg: "curmixr.cfg", graph: true, timeout: 20 * time.Minute, heapGB: 8},
-			{cfg: "isoblk.cfg", graph: true, timeout: 20 * time.Minute, heapGB: 8, coverage: true},
+			{cfg: "curmixr.cfg", timeout: 20 * time.Minute, heapGB: 8},
+			{cfg: "isoblk.cfg", graph: true, timeout: 20 * time.Minute, heapGB: 8},
 			{cfg: "fault2.cfg", graph: true, timeout: 20 * time.Minute, heapGB: 8},
 			{cfg: "blk3.cfg", graph: true, timeout: 20 * time.Minute, heapGB: 8},
 			{cfg: "blkbig.cfg", timeout: 25 * time.Minute, heapGB: 8},
@@ -363,7 +419,7 @@ func RunC05(ctx *vrun.Ctx) error {
 		if os.Getenv("VERIF_FFLDB_CFGS") == "" || strings.Contains(os.Getenv("VERIF_FFLDB_CFGS"), "treap") {
 			treapCfgs := []string{"treap_iter.cfg", "treap_imm.cfg"}
 			if ctx.Thorough {
-				treapCfgs = append(treapCfgs, "treap_iter_big.cfg", "treap_imm_big.cfg")
+				treapCfgs = append(treapCfgs, "treap_imm_big.cfg")
 			}
 			for _, cfg := range treapCfgs {
 				if err := runTreap(ctx, cfg, treapPaths); err != nil {
@@ -392,31 +448,45 @@ func RunC05(ctx *vrun.Ctx) error {
 	}
 	var wg sync.WaitGroup
 	sem := make(chan struct{}, 1) // one replay at a time
-	for _, cr := range runs {
-		mu.Lock()
-		stop := firstErr != nil
-		mu.Unlock()
-		if stop {
-			break
-		}
-		replay, err := modelCheck(ctx, cr)
-		if err != nil {
-			setErr(err)
-			break
-		}
-		if replay == nil {
-			continue
-		}
+	// Several small TLC runs at a time (each with few workers): on a shared
+	// machine the JVM start-up dominates the small configurations.
+	conc := 3
+	if ctx.Thorough {
+		conc = 2
+	}
+	jobs := make(chan cfgRun)
+	for k := 0; k < conc; k++ {
 		wg.Add(1)
 		go func() {
 			defer wg.Done()
-			sem <- struct{}{}
-			defer func() { <-sem }()
-			if err := replay(work); err != nil {
-				setErr(err)
+			for cr := range jobs {
+				mu.Lock()
+				stop := firstErr != nil
+				mu.Unlock()
+				if stop {
+					continue
+				}
+				replay, err := modelCheck(ctx, cr)
+				if err != nil {
+					setErr(err)
+					continue
+				}
+				if replay == nil {
+					continue
+				}
+				sem <- struct{}{}
+				err = replay(work)
+				<-sem
+				if err != nil {
+					setErr(err)
+				}
 			}
 		}()
 	}
+	for _, cr := range runs {
+		jobs <- cr
+	}
+	close(jobs)
 	wg.Wait()
 	if firstErr != nil {
 		return firstErr
@@ -427,10 +497,7 @@ func RunC05(ctx *vrun.Ctx) error {
 	sims := []struct {
 		cfg        string
 		num, depth int
-	}{{"kv.cfg", 300, 26}, {"blk3.cfg", 300, 60}}
-	if ctx.Thorough {
-		sims = sims[:0]
-	}
+	}{}
 	for _, sc := range sims {
 		if os.Getenv("VERIF_FFLDB_CFGS") != "" && !strings.Contains(os.Getenv("VERIF_FFLDB_CFGS"), "sim") {
 			break
@@ -443,13 +510,30 @@ func RunC05(ctx *vrun.Ctx) error {
 		for _, sc := range []struct {
 			cfg        string
 			num, depth int
-		}{{"blkbig.cfg", 1500, 90}, {"kvblk.cfg", 1500, 80}, {"kv3.cfg", 1500, 40}, {"iso2.cfg", 1500, 40}, {"cur2.cfg", 3000, 45}} {
+		}{{"blkbig.cfg", 1500, 90}, {"kvblk.cfg", 1500, 80}, {"kv3.cfg", 1500, 40}, {"iso2.cfg", 1500, 40}, {"cur2.cfg", 2500, 45}, {"curmixr.cfg", 2000, 32}} {
 			if err := simCfg(ctx, sc.cfg, sc.num, sc.depth, work); err != nil {
 				return err
 			}
 		}
 	}
 	ctx.Ev.Coverage.DistinctNT += atomic.SwapInt64(&distinctNT, 0)
+	labelsMu.Lock()
+	hist := map[string]int64{}
+	for k, v := range labels {
+		hist[k] = v
+	}
+	labelsMu.Unlock()
+	ctx.SetExtra("spec_step_kinds", hist)
+	var never []string
+	for _, l := range requiredLabels {
+		if hist[l] == 0 {
+			never = append(never, l)
+		}
+	}
+	ctx.SetExtra("actions_never_taken", never)
+	if ctx.Thorough && len(never) > 0 && os.Getenv("VERIF_FFLDB_CFGS") == "" {
+		return fmt.Errorf("vacuity audit: specification steps that never occur in any state graph: %v", never)
+	}
 	ctx.Ev.Coverage.Exhaustive = false
 	ctx.Ev.Coverage.Explanation = "TLC explores each listed configuration of Ffldb.tla exhaustively; the real code is driven along paths that cover the state graph's transitions (all of them in the thorough tier for the graph configurations, a seeded sample in the quick tier) plus simulated behaviours of the larger configurations"
 	return nil
